@@ -63,6 +63,21 @@ static Mat build_lowrank(const Case &c, const std::string &p, int m, int n) {
     for (int j = g0; j < g1; j++) dead[j] = 1;
     std::vector<int> sub = choose_subset(avail, r, s);
     for (int x : sub) piv.push_back(x < g0 ? x : x + (g1 - g0));
+  } else if (prof == "halves") {
+    // what the column-halving recursions see: a left half (split on the word boundary the library uses) whose rank is an exact
+    // multiple of 64 and below its width, the remaining pivots spread over the right half
+    int words = (n + 63) / 64;
+    int n1 = std::min(n, ((words + 1) >> 1) * 64);
+    int jmax = std::max(0, n1 / 64 - 1);
+    int r1 = std::min(r, 64 * (int)(splitmix64(s) % (u64)(jmax + 1)));
+    r1 -= r1 % 64;
+    int avail = n - n1;
+    int r2 = std::min(r - r1, avail);
+    for (int i = 0; i < r1; i++) piv.push_back(i);
+    for (int j = r1; j < n1; j++) dead[j] = 0;
+    std::vector<int> sub = choose_subset(avail, std::max(0, r2), s);
+    for (int x : sub) piv.push_back(n1 + x);
+    r = (int)piv.size();
   } else if (prof == "runs") {
     // runs of consecutive pivots separated by gaps (exercises table-count bands)
     int j = (int)(splitmix64(s) % 3);
